@@ -210,15 +210,22 @@ func (k *StoreKey) String() string      { return "StoreKey{" + k.name + "}" }
 // MultiStore implements the part of storetypes.MultiStore / CacheMultiStore that sdk.Context uses.
 type unmodelled = storetypes.CacheMultiStore
 
+// Sidecar is model state that lives beside the KV stores but must branch and commit with them
+// (bank balances, token ledgers, ...): it is copied into every cache branch and copied back on Write.
+type Sidecar interface {
+	CopySide() Sidecar
+}
+
 type MultiStore struct {
 	unmodelled // nil: every method not defined below panics
+	side       map[string]Sidecar
 	parent     *MultiStore
 	stores     map[string]*KVStore
 	names      []string
 }
 
 func NewMultiStore(names ...string) *MultiStore {
-	ms := &MultiStore{stores: map[string]*KVStore{}}
+	ms := &MultiStore{stores: map[string]*KVStore{}, side: map[string]Sidecar{}}
 	for _, n := range names {
 		ms.stores[n] = NewKVStore()
 		ms.names = append(ms.names, n)
@@ -244,12 +251,32 @@ func (ms *MultiStore) GetStore(key storetypes.StoreKey) storetypes.Store { retur
 
 // CacheMultiStore branches the state: writes go to copies until Write is called.
 func (ms *MultiStore) CacheMultiStore() storetypes.CacheMultiStore {
-	c := &MultiStore{parent: ms, stores: map[string]*KVStore{}, names: ms.names}
+	c := &MultiStore{parent: ms, stores: map[string]*KVStore{}, names: ms.names, side: map[string]Sidecar{}}
 	for _, n := range ms.names {
 		c.stores[n] = ms.stores[n].Copy()
 	}
+	for _, k := range ms.sideNames() {
+		c.side[k] = ms.side[k].CopySide()
+	}
 	return c
 }
+
+func (ms *MultiStore) sideNames() []string {
+	// fixed order (map iteration order must not matter)
+	var out []string
+	for _, k := range []string{"bank", "erc20", "staking", "aux"} {
+		if _, ok := ms.side[k]; ok {
+			out = append(out, k)
+		}
+	}
+	return out
+}
+
+// SetSide attaches sidecar state under one of the names bank | erc20 | staking | aux.
+func (ms *MultiStore) SetSide(name string, s Sidecar) { ms.side[name] = s }
+
+// Side returns the sidecar state of this branch.
+func (ms *MultiStore) Side(name string) Sidecar { return ms.side[name] }
 
 // Write copies the branch back into its parent.
 func (ms *MultiStore) Write() {
@@ -260,6 +287,9 @@ func (ms *MultiStore) Write() {
 		cp := ms.stores[n].Copy()
 		ms.parent.stores[n].entries = cp.entries
 		ms.parent.stores[n].Writes = cp.Writes
+	}
+	for _, k := range ms.sideNames() {
+		ms.parent.side[k] = ms.side[k].CopySide()
 	}
 }
 
@@ -276,9 +306,12 @@ func (ms *MultiStore) TracingEnabled() bool { return false }
 
 // Snapshot returns an independent copy of all stores.
 func (ms *MultiStore) Snapshot() *MultiStore {
-	c := &MultiStore{stores: map[string]*KVStore{}, names: ms.names}
+	c := &MultiStore{stores: map[string]*KVStore{}, names: ms.names, side: map[string]Sidecar{}}
 	for _, n := range ms.names {
 		c.stores[n] = ms.stores[n].Copy()
+	}
+	for _, k := range ms.sideNames() {
+		c.side[k] = ms.side[k].CopySide()
 	}
 	return c
 }
